@@ -41,7 +41,7 @@ def mk_reader(u: U, *, methods=None):
     proto = u.obj("BaseProtocol", {"_reading_paused": u.bool("reading_paused")},
                   {"pause_reading": lambda s: (u.event("pause_reading"), setattr(s, "_reading_paused", True))[0],
                    "resume_reading": lambda s: (u.event("resume_reading"), setattr(s, "_reading_paused", False))[0]})
-    queue = u.obj("WebSocketDataQueue", {"_protocol": proto},
+    queue = u.obj("WebSocketDataQueue", {"_protocol": proto, "_limit": u.int("queue_limit", 1), "_size": u.int("queue_size", 0)},
                   {"feed_data": lambda s, msg: u.event("queue.feed_data", msg),
                    "set_exception": lambda s, exc, cause=None: u.event("queue.set_exception", exc)},
                   const=("_protocol",))
@@ -281,12 +281,25 @@ def _feed_data_unit(u: U, *, canary=None):
         u.check("C12.seg.tail_exact", r._tail.prov_eq(full.slice(sp, dl)) if isinstance(r._tail, SBytes)
                 else And(blen(r._tail) == 0, sp == dl),
                 "_tail is exactly data[start_pos:] at every exit that leaves input unconsumed")
-        # C12.frag: fragment-count cap requests back-pressure
+        # C12.frag: the pieces buffered for an unfinished frame stay few (bounded overhead) ...
         nf = seq_count(r._payload_fragments)
         u.check("C12.frag.pause",
                 Implies(And(nf > head["nfrag"], r._max_fragments > 0, nf > r._max_fragments),
                         r.queue._protocol._reading_paused),
-                "more than max_fragments buffered fragments => reading is paused")
+                "the per-piece overhead is capped: once more than max_fragments pieces are buffered the cap is acted on "
+                "(today: by asking for back-pressure; vacuous if the pieces are merged instead)")
+        # ... and the reader itself never pauses the transport: reading is resumed only when a consumer takes a
+        # message from the queue (WebSocketDataQueue._read_from_buffer), and an unfinished frame cannot become a
+        # message unless its remaining bytes are read - so a pause here with an empty queue stalls the connection for
+        # good, however large the frame and however small the segments (property: 'however the frames are segmented')
+        own_pause = [e for e in u.events[head.get("events0", 0):] if e[0] == "pause_reading"]
+        u.check("C12.flow.pause_needs_a_consumer", len(own_pause) == 0,
+                "_feed_data does not pause reading for an unfinished frame (only the message queue applies back-pressure, "
+                "and only it can lift it)", known=[("F12d", And(r._max_fragments > 0, nf > r._max_fragments))],
+                witness={"fragments": nf, "max_fragments": r._max_fragments, "frame_bytes_so_far": r._frame_payload_len},
+                # the same obligation carries C11's 'however the frames are segmented in transit': while a frame is
+                # incomplete the reader keeps reading, so a multi-megabyte message in many segments is not stalled
+                also_as=("C11.seg.reader_never_stalls_an_unfinished_frame",))
         return
     u.cover("C12.feed_data.raises")
     L = _exc_locals(out.exc)
@@ -318,7 +331,7 @@ def _feed_data_unit(u: U, *, canary=None):
         u.check("C12.code.known", False, "WebSocketError with an unexpected close code raised by _feed_data")
 
 
-@unit("C12", "feed_data.inv", functions=[f"{MOD}:WebSocketReader._feed_data"])
+@unit("C12", "feed_data.inv", functions=[f"{MOD}:WebSocketReader._feed_data"], also=("C11",))
 def feed_data_inv(u: U):
     """I12 preserved by _feed_data for every chunk and prior state; only WebSocketError escapes; header rules
     agree with RFC 6455 in both directions; size test precedes buffering; unconsumed input kept exactly."""
